@@ -30,7 +30,7 @@ func Parse(query string) (Query, error) {
 	}
 
 	trimmed = strings.TrimSuffix(trimmed, ";")
-	lower := strings.ToLower(trimmed)
+	lower := asciiLower(trimmed)
 	fields := strings.Fields(lower)
 	if len(fields) == 0 {
 		return Query{}, fmt.Errorf("empty query")
@@ -48,6 +48,19 @@ func Parse(query string) (Query, error) {
 	default:
 		return Query{Type: QueryUnknown}, fmt.Errorf("unsupported statement")
 	}
+}
+
+// asciiLower lower-cases ASCII letters only. Unlike strings.ToLower it never
+// changes the byte length of the text, so offsets found in the result can be
+// used to slice the original (keywords are ASCII).
+func asciiLower(s string) string {
+	b := []byte(s)
+	for i, c := range b {
+		if c >= 'A' && c <= 'Z' {
+			b[i] = c + ('a' - 'A')
+		}
+	}
+	return string(b)
 }
 
 func parseShow(fields []string) (Query, error) {
@@ -69,7 +82,7 @@ func parseDescribe(fields []string) (Query, error) {
 
 func parseExplain(raw string) (Query, error) {
 	trimmed := strings.TrimSpace(raw)
-	lower := strings.ToLower(trimmed)
+	lower := asciiLower(trimmed)
 	if !strings.HasPrefix(lower, "explain") {
 		return Query{Type: QueryUnknown}, fmt.Errorf("invalid explain")
 	}
